@@ -138,3 +138,24 @@ func (c *Sess) ClosedCall(update bool) string {
 	c.S.T.Add(rec.Event{Ev: "ClosedCall", W: c.W, Res: r})
 	return r
 }
+
+// UpdateFailing runs DB.Update with a closure that writes and then fails: the engine must
+// discard the transaction. Recorded as Begin, Puts, Discard.
+func (c *Sess) UpdateFailing(puts [][2]int, fail error) {
+	c.S.T.Add(rec.Event{Ev: "BeginInv", W: c.W, Upd: true})
+	first := true
+	err := c.S.DB.Update(func(t *originium.Txn) error {
+		c.Txn = t
+		c.S.T.Add(rec.Event{Ev: "BeginResp", W: c.W})
+		first = false
+		for _, p := range puts {
+			c.Put(p[0], p[1])
+		}
+		return fail
+	})
+	if first {
+		c.S.T.Add(rec.Event{Ev: "BeginResp", W: c.W})
+	}
+	_ = err
+	c.S.T.Add(rec.Event{Ev: "Discard", W: c.W})
+}
